@@ -129,7 +129,7 @@ def gen_bounds(rng, n, prof, need_finite=False):
         elif need_finite:
             kind = rng.wpick([(6, "two"), (1, "narrow"), (1.5 if want_fixed else 0, "fixed"), (0.5 if want_fixed else 0, "near")])
         else:
-            kind = rng.wpick([(2, "free"), (2, "lower"), (2, "upper"), (5, "two"), (1.5, "narrow"),
+            kind = rng.wpick([(2, "free"), (2, "lower"), (2, "upper"), (5, "two"), (1.5, "narrow"), (0.35, "bigfinite"),
                               (3 if want_fixed else 0, "fixed"), (1 if want_fixed else 0, "near")])
         c = rng.nice(-2, 2)
         if kind == "free":
@@ -142,6 +142,9 @@ def gen_bounds(rng, n, prof, need_finite=False):
             a, b = c, c + rng.pick([0.5, 1.0, 2.0, 3.0, 5.0])
         elif kind == "narrow":
             a, b = c, c + rng.pick([1e-3, 0.01, 0.05, 0.125])
+        elif kind == "bigfinite":
+            # a finite "no bound" sentinel next to an ordinary bound
+            a, b = (c, rng.pick([1e10, 1e21])) if rng.chance(0.5) else (-rng.pick([1e10, 1e21]), c)
         elif kind == "fixed":
             a, b = c, c
         else:  # near-fixed: a few ulp apart
@@ -271,7 +274,7 @@ def gen_nonlinear(rng, n, prof, twin_of=None):
         elif pat == "lb":
             a, b = c - 1.0, math.inf
         elif pat == "two":
-            a, b = c - rng.pick([0.5, 1.0, 2.0]), c
+            a, b = c - rng.pick([0.5, 1.0, 2.0, 2.0 ** -20]), c
         elif pat == "eq":
             a, b = c, c
         else:
@@ -279,6 +282,10 @@ def gen_nonlinear(rng, n, prof, twin_of=None):
         lb.append(a)
         ub.append(b)
     spec["lb"], spec["ub"] = lb, ub
+    if rng.chance(0.2):
+        spec["callable"] = rng.pick(["method", "instance", "partial"])
+    if rng.chance(0.12):
+        spec["jac"] = True
     if rng.chance(0.15):
         spec["lb"], spec["ub"] = lb[0], ub[0]
     spec["ret"] = rng.pick(["ndarray", "ndarray_reused", "list", "tuple"] + (["scalar"] if m == 1 else []))
@@ -487,6 +494,12 @@ def gen_statement(rng, prof=None):
         # a plain default call: options=None (or an empty dict)
         stmt["options"] = None if rng.chance(0.7) else {}
     stmt["constants"] = gen_constants(rng) if rng.chance(prof["p_constants"]) else {}
+    if stmt.get("options") and stmt["options"].get("scale") and b is not None and "bigfinite" in b.get("kinds", []):
+        # scaling a variable by 5e20 leaves no digits for unit-sized linear residuals (rounding 1e5): not generated
+        del stmt["options"]["scale"]
+    if stmt.get("options") and rng.chance(prof.get("p_options_numpy", 0.08)):
+        # option values as numpy scalars or zero-dimensional arrays (valid numbers; the arrays are the user's)
+        stmt["options_numpy"] = rng.pick(["scalar", "array0"])
     if rng.chance(prof.get("p_strict_dims", 0.0)):
         stmt["strict_dims"] = True
     return stmt
